@@ -12,6 +12,7 @@ import (
 	"crypto/ecdsa"
 	"crypto/elliptic"
 	"crypto/rand"
+	"crypto/rsa"
 	"crypto/x509"
 	"crypto/x509/pkix"
 	"encoding/base64"
@@ -20,6 +21,7 @@ import (
 	"flag"
 	"fmt"
 	"math"
+	"math/big"
 	"net/http"
 	"net/http/httptest"
 	"net/url"
@@ -106,10 +108,18 @@ func newEnv() (*env, error) {
 	// the handler Init built for the TLS server (hook ca.VerifHandler). With a "logger" section and
 	// STEP_LOGGER_LOG_REAL_IP the logger parses the proxy headers of every request.
 	os.Setenv("STEP_LOGGER_LOG_REAL_IP", "true")
+	// a SCEP provisioner with its own RSA decrypter (the CA chain is EC): the SCEP routes run past the provisioner lookup
+	scepKey := must(rsa.GenerateKey(rand.Reader, 2048))
+	scepTpl := &x509.Certificate{SerialNumber: big.NewInt(77), Subject: pkix.Name{CommonName: "SCEP decrypter"}, NotBefore: time.Now().Add(-time.Hour), NotAfter: time.Now().Add(24 * time.Hour),
+		KeyUsage: x509.KeyUsageDigitalSignature | x509.KeyUsageKeyEncipherment}
+	scepDER := must(x509.CreateCertificate(rand.Reader, scepTpl, scepTpl, &scepKey.PublicKey, scepKey))
+	scepProv := &provisioner.SCEP{Type: "SCEP", Name: "scep", ChallengePassword: "secret", MinimumPublicKeyLength: 2048, EncryptionAlgorithmIdentifier: 2,
+		DecrypterCertificate: pem.EncodeToMemory(&pem.Block{Type: "CERTIFICATE", Bytes: scepDER}),
+		DecrypterKeyPEM:      pem.EncodeToMemory(&pem.Block{Type: "RSA PRIVATE KEY", Bytes: x509.MarshalPKCS1PrivateKey(scepKey)})}
 	real, err := fixture.NewRealCA(fixture.RealOpts{
 		JWKClaims:    &provisioner.Claims{EnableSSHCA: &enableSSH},
 		CRL:          &config.CRLConfig{Enabled: true},
-		Provisioners: provisioner.List{&provisioner.SSHPOP{Type: "SSHPOP", Name: "sshpop"}, &provisioner.ACME{Type: "ACME", Name: "acme"}},
+		Provisioners: provisioner.List{&provisioner.SSHPOP{Type: "SSHPOP", Name: "sshpop"}, &provisioner.ACME{Type: "ACME", Name: "acme"}, scepProv},
 		EnableAdmin:  true,
 		Logger:       true,
 	})
@@ -356,6 +366,42 @@ var gens = map[string]gen{
 		}
 		return req, method
 	},
+	"scep": func(e *env, r *c.Rng) (*http.Request, string) {
+		// an existing SCEP provisioner; parameter names plain, percent-encoded, repeated or absent; values that are
+		// base64, nearly base64, URL-escaped base64, or neither
+		enc := func(k string) string {
+			switch r.Intn(4) {
+			case 0:
+				return "%" + fmt.Sprintf("%02X", k[0]) + k[1:]
+			case 1:
+				return k[:len(k)-1] + "%" + fmt.Sprintf("%02x", k[len(k)-1])
+			}
+			return k
+		}
+		vals := []string{"AAAA", "%40%40%40", "@@@", "AAA", "A", "", "MIIB%2B%2F", "MIIB+/==", "MIIB-_", base64.StdEncoding.EncodeToString([]byte{0x30, 0x80}), url.QueryEscape(base64.StdEncoding.EncodeToString(bytes.Repeat([]byte{0x30}, 300))), pickS(r)}
+		op := c.Pick(r, []string{"PKIOperation", "GetCACert", "GetCACaps", "GetNextCACert", "pkioperation", "", pickS(r)})
+		var parts []string
+		if r.Chance(9, 10) {
+			parts = append(parts, enc("operation")+"="+url.QueryEscape(op))
+		}
+		for i := r.Intn(3); i > 0; i-- {
+			parts = append(parts, enc("message")+"="+c.Pick(r, vals))
+		}
+		path := c.Pick(r, []string{"/scep/scep", "/scep/scep/pkiclient.exe", "/scep/scep/", "/scep/nosuch"})
+		raw := strings.NewReplacer(" ", "%20", "\x00", "%00", "\n", "%0A", "\r", "%0D").Replace(strings.Join(parts, "&"))
+		if r.Chance(1, 3) {
+			body := c.Pick(r, [][]byte{nil, {0x30, 0x80}, bytes.Repeat([]byte{0x30, 0x82}, 500), []byte("AAAA"), rawBody(r)})
+			req, err := http.NewRequest("POST", "http://"+fixture.DNSName+path+"?"+raw, bytes.NewReader(body))
+			if err == nil {
+				return req, "POST"
+			}
+		}
+		req, err := http.NewRequest("GET", "http://"+fixture.DNSName+path+"?"+raw, nil)
+		if err != nil {
+			req = httptest.NewRequest("GET", "/scep/scep?operation=GetCACaps", nil)
+		}
+		return req, "GET"
+	},
 	"sign": func(e *env, r *c.Rng) (*http.Request, string) {
 		name := "s" + fmt.Sprint(r.Intn(1000)) + ".verif.test"
 		sans := []string{name}
@@ -459,8 +505,7 @@ var gens = map[string]gen{
 			// validity spans around every bound the renew / rekey arithmetic has (seconds → nanoseconds → int64)
 			if caSigner, err := ssh.NewSignerFromKey(e.ca.SSHHost); err == nil {
 				now := uint64(time.Now().Unix())
-				span := c.Pick(r, []uint64{1, 60, 3600, 1 << 31, 1 << 32, 9223372035, 9223372036, 9223372037, 10000000000, 1 << 34, 18446744073, 18446744074,
-					1 << 40, 1 << 62, 1<<63 - now, math.MaxInt64, 1 << 63, math.MaxUint64 - now - 1})
+				span := c.Pick(r, sshSpans(now))
 				crt = &ssh.Certificate{Key: signer.PublicKey(), Serial: r.U64(), CertType: ssh.HostCert, KeyId: "h2.verif.test", ValidPrincipals: []string{"h2.verif.test"},
 					ValidAfter: now - 60, ValidBefore: now - 60 + span}
 				if r.Chance(1, 6) {
@@ -553,8 +598,7 @@ var gens = map[string]gen{
 				q.Set("cursor", cur)
 			}
 			if r.Chance(4, 5) {
-				q.Set("limit", c.Pick(r, []string{"0", "-1", "1", "2", "100", "101", "2147483647", "2147483648", "9223372036854775806", "9223372036854775807", "9223372036854775808",
-					"-9223372036854775808", "18446744073709551615", "1e3", "", "abc", "0x10"}))
+				q.Set("limit", c.Pick(r, listLimits))
 			}
 			path += "?" + q.Encode()
 		}
@@ -739,6 +783,138 @@ func runOne(e *env, o *c.Out, name string, seed uint64) {
 	o.Row(fmt.Sprintf("ep=%s mut=%s seed=%d case=x%x", name, strings.ReplaceAll(mut, " ", "_"), seed, js), out, "ok")
 }
 
+// ---------- fixed cases: run on every seed before the random stream, so that the boundary shapes the generators know
+// about are always exercised (a random stream of this length reaches some of the combinations only now and then)
+
+var listLimits = []string{"0", "-1", "1", "2", "100", "101", "2147483647", "2147483648", "9223372036854775806", "9223372036854775807", "9223372036854775808",
+	"-9223372036854775808", "18446744073709551615", "1e3", "", "abc", "0x10"}
+
+func sshSpans(now uint64) []uint64 {
+	return []uint64{1, 60, 3600, 1 << 31, 1 << 32, 9223372035, 9223372036, 9223372037, 10000000000, 1 << 34, 18446744073, 18446744074,
+		1 << 40, 1 << 62, 1<<63 - now, math.MaxInt64, 1 << 63, math.MaxUint64 - now - 1}
+}
+
+func (e *env) serveCorner(o *c.Out, what string, req *http.Request) {
+	res := e.srv.Serve(req, 5*time.Second)
+	out := "ok"
+	switch {
+	case res.Panic != "":
+		out = "panic:" + strings.ReplaceAll(res.Panic, "\t", " ")
+	case res.Timeout:
+		out = "timeout"
+	default:
+		e.statusHis[res.Status]++
+	}
+	o.Row("ep=corner "+strings.ReplaceAll(what, " ", "_"), out, "ok")
+}
+
+func corners(e *env, o *c.Out) {
+	// listings, authenticated and public: every cursor position with every page size
+	var adminIDs, provIDs []string
+	if adms, _, err := e.ca.Auth.GetAdmins("", 100); err == nil {
+		for _, a := range adms {
+			adminIDs = append(adminIDs, a.Id)
+		}
+	}
+	if ps, _, err := e.ca.Auth.GetProvisioners("", 100); err == nil {
+		for _, x := range ps {
+			provIDs = append(provIDs, x.GetID())
+		}
+	}
+	for _, l := range []struct {
+		path  string
+		ids   []string
+		admin bool
+	}{{"/admin/admins", adminIDs, true}, {"/admin/provisioners", provIDs, true}, {"/admin/acme/eab/acme", nil, true}, {"/provisioners", provIDs, false}, {"/1.0/provisioners", provIDs, false}} {
+		for ci, cur := range append([]string{"", "zzz"}, l.ids...) {
+			for _, lim := range listLimits {
+				q := url.Values{}
+				if ci != 0 {
+					q.Set("cursor", cur)
+				}
+				q.Set("limit", lim)
+				req, err := http.NewRequest("GET", "http://"+fixture.DNSName+l.path+"?"+q.Encode(), nil)
+				if err != nil {
+					continue
+				}
+				if l.admin {
+					tok, _ := fixture.AdminToken(e.adminCrt, e.adminKey, req.URL.Path, "step", e.adminInts...)
+					req.Header.Set("Authorization", tok)
+				}
+				e.serveCorner(o, fmt.Sprintf("list %s cursor=%d limit=%s", l.path, ci, lim), req)
+			}
+		}
+	}
+	// SSH renew / rekey with a certificate under the CA's own host key, every validity span
+	if e.ca.SSHHost != nil {
+		if caSigner, err := ssh.NewSignerFromKey(e.ca.SSHHost); err == nil {
+			now := uint64(time.Now().Unix())
+			for _, span := range sshSpans(now) {
+				for _, op := range []string{"renew", "rekey"} {
+					for _, va := range []uint64{now - 60, 0} {
+						key := must(ecdsa.GenerateKey(elliptic.P256(), rand.Reader))
+						signer := must(ssh.NewSignerFromKey(key))
+						crt := &ssh.Certificate{Key: signer.PublicKey(), Serial: span, CertType: ssh.HostCert, KeyId: "h2.verif.test", ValidPrincipals: []string{"h2.verif.test"},
+							ValidAfter: va, ValidBefore: va + span}
+						if va == 0 && span < now {
+							crt.ValidBefore = now + span
+						}
+						if crt.SignCert(rand.Reader, caSigner) != nil {
+							continue
+						}
+						obj := map[string]any{"ott": sshpopToken(crt, key, "/1.0/ssh/"+op, crt.KeyId)}
+						if op == "rekey" {
+							obj["publicKey"] = signer.PublicKey().Marshal()
+						}
+						e.serveCorner(o, fmt.Sprintf("ssh-%s ca-signed span=%d va=%d", op, span, va), e.post("/1.0/ssh/"+op, obj))
+					}
+				}
+			}
+		}
+	}
+	// /ssh/sign with a correctly signed identity CSR carrying each boundary URI alone and next to a uuid
+	for i, u := range identityURIs {
+		pu, err := url.Parse(u)
+		if err != nil {
+			continue
+		}
+		for _, with := range []bool{false, true} {
+			key := must(ecdsa.GenerateKey(elliptic.P256(), rand.Reader))
+			tpl := &x509.CertificateRequest{Subject: pkix.Name{CommonName: "k"}, URIs: []*url.URL{pu}}
+			if with {
+				tpl.URIs = append(tpl.URIs, must(url.Parse("urn:uuid:6ba7b810-9dad-11d1-80b4-00c04fd430c8")))
+			}
+			der, err := x509.CreateCertificateRequest(rand.Reader, tpl, key)
+			if err != nil {
+				continue
+			}
+			csr, err := x509.ParseCertificateRequest(der)
+			if err != nil {
+				continue
+			}
+			sk := must(ecdsa.GenerateKey(elliptic.P256(), rand.Reader))
+			pub := must(ssh.NewPublicKey(&sk.PublicKey))
+			tokOpts := map[string]any{"certType": "user", "keyID": "k", "principals": []string{"p1"}}
+			obj := map[string]any{"publicKey": pub.Marshal(), "ott": e.sshToken("k", "/1.0/ssh/sign", tokOpts), "certType": "user", "keyID": "k", "principals": []string{"p1"}, "identityCSR": pemCSR(csr)}
+			e.serveCorner(o, fmt.Sprintf("ssh-sign identity uri=%d uuid=%v", i, with), e.post("/1.0/ssh/sign", obj))
+		}
+	}
+	// SCEP GET: the parameter names plain and percent-encoded, values base64 or not
+	for _, name := range []string{"message", "%6Dessage", "messag%65", "MESSAGE"} {
+		for vi, v := range []string{"AAAA", "%40%40%40", "@@@", "A", "", "MIIB%2B%2F", "MIIB+/=="} {
+			for _, opn := range []string{"operation", "%6Fperation"} {
+				for _, pth := range []string{"/scep/scep", "/scep/scep/pkiclient.exe"} {
+					req, err := http.NewRequest("GET", "http://"+fixture.DNSName+pth+"?"+opn+"=PKIOperation&"+name+"="+v, nil)
+					if err != nil {
+						continue
+					}
+					e.serveCorner(o, fmt.Sprintf("scep %s %s %s val=%d", pth, opn, name, vi), req)
+				}
+			}
+		}
+	}
+}
+
 func main() {
 	n := flag.Int("n", 4000, "number of requests")
 	out := flag.String("out", "", "output file")
@@ -759,6 +935,9 @@ func main() {
 	defer e.ca.Close()
 	if *replay != "" {
 		data, _ := os.ReadFile(*replay)
+		if strings.Contains(string(data), "ep=corner") { // the fixed cases are replayed as a whole
+			corners(e, o)
+		}
 		for _, l := range strings.Split(string(data), "\n") {
 			i := strings.Index(l, "case=x")
 			if i < 0 {
@@ -787,6 +966,11 @@ func main() {
 	if *only != "" {
 		names = []string{*only}
 		debugBodies = true
+	}
+	if *only == "" {
+		corners(e, o)
+		ok := e.reference()
+		o.Row("ep=reference after=corners", map[bool]string{true: "ok", false: "refbroken"}[ok], "ok")
 	}
 	r := c.NewRng(c.Seed())
 	for i := 0; i < *n; i++ {
